@@ -214,7 +214,8 @@ def main(tier: str, workers: int = 16) -> int:
             "preexisting_output_overwritten", "preexisting_longer_output_overwritten", "failure_with_preexisting_output",
             "pipeline_after_cellml", "formatter_stub_applied", "formatter_missing_env", "ambiguous_expectation_sets",
             "real_process_mirrors", "fidelity_mismatch", "api_real_process_runs", "candidates", "config_overrode_cli_value", "config_applied_unambiguously", "real_process_cache_hits", "c_output_with_real_clang_format_env", "candidates_confirmed_in_real_process",
-            "candidates_not_confirmed", "success_with_nondefault_option")},
+            "candidates_not_confirmed", "success_with_nondefault_option", "success_with_repeated_scheme_or_stiff_option",
+            "success_with_space_or_non_ascii_model_name")},
         "canonical_event_log_sha256": log_digest,
         "invocations_per_hour": round(inv / wall * 3600) if wall > 0 else 0,
         "sessions_per_hour": round(sum(r.get("n_sessions", 0) for r in results) / wall * 3600) if wall > 0 else 0,
